@@ -91,12 +91,30 @@ def gen_trees(ctx):
     g = gens_ast.AstGen(ctx.rng)
     for _ in range(6000 if ctx.thorough else 800):
         trees.append(g.gen(ctx.rng.randint(1, 6)))
+    # LONG chains (65 / 100 / 200 operands) of one operator, left-nested as the grammar associates them, right-nested with explicit parentheses, and mixed
+    def chain(op_node, n, left=True, leaf=lambda i: ast.Compare(ast.Eq(), ast.Identifier("a"), ast.Integer(str(i)))):
+        items = [leaf(i) for i in range(n)]
+        if left:
+            e = items[0]
+            for x in items[1:]:
+                e = op_node(e, x)
+        else:
+            e = items[-1]
+            for x in reversed(items[:-1]):
+                e = op_node(x, e)
+        return e
+    OR = lambda l, r: ast.BoolOp(ast.Or(), l, r); AND = lambda l, r: ast.BoolOp(ast.And(), l, r); ADD = lambda l, r: ast.BinOp(ast.Add(), l, r)
+    for n in (64, 65, 100, 200):
+        trees += [chain(OR, n), chain(AND, n), chain(OR, n, left=False), OR(chain(AND, n), chain(AND, 3)), AND(chain(OR, n), ast.Identifier("b")),
+                  ast.Compare(ast.Gt(), chain(ADD, n, leaf=lambda i: ast.Identifier("x%d" % i)), ast.Integer("0")), ast.UnaryOp(ast.Not(), chain(OR, n))]
     uniq = {}
     for t in trees:
         uniq.setdefault(enc(t), t)
     return list(uniq.items())
 
 def run(ctx):
+    import sys
+    sys.setrecursionlimit(max(sys.getrecursionlimit(), 10000))      # the harness encodes 200-deep chains recursively
     common.build_and_audit(ctx, PROP_MODS, gen=lambda c: gen_tables.generate(["ParserTables"]))
     trees = gen_trees(ctx)
     # render every tree with the independent reference printer (Lean, Spec/RefPrinter)
